@@ -19,9 +19,15 @@ def _validate(chk, scen, results, label):
     values / outcome with the real run"""
     lines = []
     results = [(case, res) for case, res in results if case.get('fx') is None]   # raising `func`: monitors only
+    # several driver processes side by side (the τ-closure makes validation the slowest part on big batches)
+    chunks = []
     for k, (case, res) in enumerate(results):
-        lines += scen.model_lines(k, case, res)
-    out = core.run_driver('afifo', lines)
+        if k % 1500 == 0:
+            chunks.append([])
+        chunks[-1] += scen.model_lines(k, case, res)
+    from concurrent.futures import ThreadPoolExecutor
+    with ThreadPoolExecutor(max(1, min(chk.workers, len(chunks)))) as tp:
+        out = [l for part in tp.map(lambda ls: core.run_driver('afifo', ls), chunks) for l in part]
     verdict = {}
     for l in out:
         w = l.split(' ', 2)
@@ -77,7 +83,7 @@ def _recognise_legacy(chk, scen):
 def _cases(chk, scen):
     rng = chk.rng
     quick = chk.tier == 'quick'
-    n_rand = 4000 if quick else 60000
+    n_rand = 3000 if quick else 60000
     boundary = scen.boundary_cases()
     rand = [scen.gen_case(rng, chk.tier, rng.choice(['', 'pre', 'pre', 'order', 'stop', 'src']))
             for _ in range(n_rand)]
@@ -94,7 +100,7 @@ def _cases(chk, scen):
         perms += list(scen.perm_cases(n, cap=2, pf=[1], rexc=True, kind='apmap'))
     # thread-mixing variants under the deterministic scheduler (E1 + cooperative-selector loop)
     asrv = importlib.import_module(SCEN_E1)
-    thr = [asrv.gen_case(rng, chk.tier, rng.choice(['', 'pre', 'pre'])) for _ in range(1200 if quick else 30000)]
+    thr = [asrv.gen_case(rng, chk.tier, rng.choice(['', 'pre', 'pre'])) for _ in range(800 if quick else 20000)]
     return boundary, rand, perms, thr
 
 
